@@ -131,6 +131,8 @@ pub struct Session<'a> {
     last_score: Option<String>,
     info_after_stop: u64,
     stop_pending: bool,
+    /// C14: hostile `go` lines need not be answered; only liveness is judged
+    pub lenient: bool,
     bin: &'a str,
 }
 
@@ -145,6 +147,7 @@ impl<'a> Session<'a> {
             last_score: None,
             info_after_stop: 0,
             stop_pending: false,
+            lenient: false,
             bin,
         })
     }
@@ -161,7 +164,9 @@ impl<'a> Session<'a> {
             let mv = rest.trim().split_whitespace().next().unwrap_or("").to_string();
             self.out.bestmoves += 1;
             let Some(idx) = self.gos.iter().position(|g| !g.answered) else {
-                self.fail("bestmove-without-go", format!("'{}' arrived with no unanswered go", l));
+                if !self.lenient {
+                    self.fail("bestmove-without-go", format!("'{}' arrived with no unanswered go", l));
+                }
                 return;
             };
             let legal = self.gos[idx].pos.legal_moves();
@@ -183,6 +188,9 @@ impl<'a> Session<'a> {
     }
 
     fn unanswered_with_move(&self) -> Option<String> {
+        if self.lenient {
+            return None;
+        }
         self.gos.iter().find(|g| !g.answered && !g.pos.legal_moves().is_empty()).map(|g| format!("go {} on {}", g.spec, g.pos.fen()))
     }
 
@@ -341,7 +349,7 @@ impl<'a> Session<'a> {
                         return false;
                     }
                     let n = self.gos.len();
-                    if let Some(g) = self.gos.iter().take(n - 1).find(|g| !g.answered && !g.pos.legal_moves().is_empty()) {
+                    if let Some(g) = self.gos.iter().take(n - 1).find(|g| !self.lenient && !g.answered && !g.pos.legal_moves().is_empty()) {
                         let msg = format!("go {} on {} was ended by a new go but no bestmove was printed", g.spec, g.pos.fen());
                         self.fail("missing-bestmove", msg);
                         return false;
@@ -547,18 +555,53 @@ pub fn make_session(rng: &mut gen::R, corpus: &[Pos]) -> Vec<Cmd> {
     for _ in 0..n {
         match rng.gen_range(0..100) {
             0..=34 => {
-                // position
-                let (fen, start) = if rng.gen_bool(0.45) { (None, Pos::start()) } else {
-                    let p = random_fen_root(rng, corpus);
-                    (Some(p.fen()), p)
+                // position: a new one, or (as GUIs do) the previous base with a longer or shorter move list
+                let prev = s.iter().rev().find_map(|c| match c {
+                    Cmd::Position { fen, moves } => Some((fen.clone(), moves.clone())),
+                    _ => None,
+                });
+                let (fen, moves, last) = match prev {
+                    Some((pf, pm)) if rng.gen_bool(0.35) => {
+                        let base = match &pf {
+                            None => Pos::start(),
+                            Some(f) => Pos::from_fen(f).unwrap(),
+                        };
+                        // takeback (proper prefix, possibly empty) or continuation
+                        let keep = if rng.gen_bool(0.6) && !pm.is_empty() { rng.gen_range(0..pm.len()) } else { pm.len() };
+                        let mut p = base.clone();
+                        let mut ms: Vec<String> = vec![];
+                        for m in pm.iter().take(keep) {
+                            let om = p.legal_moves().into_iter().find(|o| Pos::lan(o) == *m).unwrap();
+                            p = p.make(&om);
+                            ms.push(m.clone());
+                        }
+                        if keep == pm.len() {
+                            let extra = rng.gen_range(0..4);
+                            let (game, _) = gen::play(rng, &p.clone(), extra);
+                            for (q, m) in game.iter() {
+                                let _ = q;
+                                ms.push(Pos::lan(m));
+                                p = p.make(m);
+                            }
+                        }
+                        (pf, ms, p)
+                    }
+                    _ => {
+                        let (fen, start) = if rng.gen_bool(0.45) {
+                            (None, Pos::start())
+                        } else {
+                            let p = random_fen_root(rng, corpus);
+                            (Some(p.fen()), p)
+                        };
+                        let plies = if fen.is_none() { rng.gen_range(0..40) } else { rng.gen_range(0..12) };
+                        let (game, last) = gen::play(rng, &start, plies);
+                        (fen, game.iter().map(|(_, m)| Pos::lan(m)).collect(), last)
+                    }
                 };
-                let plies = if fen.is_none() { rng.gen_range(0..40) } else { rng.gen_range(0..12) };
-                let (game, last) = gen::play(rng, &start, plies);
-                let moves: Vec<String> = game.iter().map(|(_, m)| Pos::lan(m)).collect();
                 cur = last;
                 s.push(Cmd::Position { fen, moves });
                 searching = false;
-                if rng.gen_bool(0.3) {
+                if rng.gen_bool(0.4) {
                     s.push(Cmd::State);
                 }
             }
